@@ -271,8 +271,10 @@ def check_plan(scn, plan, res, cos, pos, text_of, by_id):
             coded = {v[2] for v in mi.stmt_starts.values()}
             per_line = {}
             for i_, p_ in pos.items():
-                if isinstance(i_, int):
-                    per_line[p_[0]] = per_line.get(p_[0], 0) + 1
+                # (every recorded position counts, also the ELSEIF / CASE /
+                # LOOP part of a block statement: a statement written on an
+                # ELSEIF line shares that line with the ELSEIF itself)
+                per_line[p_[0]] = per_line.get(p_[0], 0) + 1
             # (a statement the optimiser left without code has no start; on a
             # line shared by several statements one cannot tell which of them
             # kept its code, so only statements on a line of their own count)
